@@ -66,6 +66,8 @@ struct M {
     replace: bool,
     /// append the per-module elements as one multi-element stack instead of one by one
     bulk: bool,
+    /// 0 normal tear-down, 1 a task registered with current().join never finishes, 2 at_sim_end returns an error
+    ending: u8,
 }
 impl Module for M {
     fn at_sim_start(&mut self, _s: usize) {
@@ -77,6 +79,9 @@ impl Module for M {
             des::time::sleep(Duration::from_secs(3)).await;
             l.lock().unwrap().push("H:task".into());
         });
+        if self.ending == 1 {
+            current().join(tokio::spawn(std::future::pending::<()>()));
+        }
     }
     fn handle_message(&mut self, m: Message) {
         self.log.lock().unwrap().push(format!("H:msg{}:id{}", m.header().kind, m.header().id));
@@ -87,6 +92,9 @@ impl Module for M {
     }
     fn at_sim_end(&mut self) -> Result<(), RuntimeError> {
         self.log.lock().unwrap().push("H:end".into());
+        if self.ending == 2 {
+            return Err(RuntimeError::from(std::io::Error::other("module reports a failed run")));
+        }
         Ok(())
     }
     fn stack(&self, s: ProcessingStack) -> ProcessingStack {
@@ -124,13 +132,14 @@ struct Case {
     local: Vec<Kind>,
     replace: bool,
     bulk: bool,
+    ending: u8,
 }
 fn case_json(c: &Case) -> Value {
-    json!({"global": c.global.iter().map(|k| format!("{k:?}")).collect::<Vec<_>>(), "local": c.local.iter().map(|k| format!("{k:?}")).collect::<Vec<_>>(), "module_replaces_global_stack": c.replace, "local_part_appended_as_one_stack": c.bulk})
+    json!({"global": c.global.iter().map(|k| format!("{k:?}")).collect::<Vec<_>>(), "local": c.local.iter().map(|k| format!("{k:?}")).collect::<Vec<_>>(), "module_replaces_global_stack": c.replace, "local_part_appended_as_one_stack": c.bulk, "ending": c.ending})
 }
 fn case_from(v: &Value) -> Case {
     let ks = |x: &Value| x.as_array().unwrap().iter().map(|s| *KINDS.iter().find(|k| format!("{k:?}") == s.as_str().unwrap()).unwrap()).collect();
-    Case { global: ks(&v["global"]), local: ks(&v["local"]), replace: v["module_replaces_global_stack"].as_bool().unwrap(), bulk: v["local_part_appended_as_one_stack"].as_bool().unwrap_or(false) }
+    Case { global: ks(&v["global"]), local: ks(&v["local"]), replace: v["module_replaces_global_stack"].as_bool().unwrap(), bulk: v["local_part_appended_as_one_stack"].as_bool().unwrap_or(false), ending: v["ending"].as_u64().unwrap_or(0) as u8 }
 }
 
 fn run_case(c: &Case) -> Result<u64, String> {
@@ -147,7 +156,7 @@ fn run_case(c: &Case) -> Result<u64, String> {
             }
             s
         });
-        sim.node("m", M { log: log.clone(), local: c.local.clone(), base: if c.replace { 0 } else { c.global.len() }, replace: c.replace, bulk: c.bulk });
+        sim.node("m", M { log: log.clone(), local: c.local.clone(), base: if c.replace { 0 } else { c.global.len() }, replace: c.replace, bulk: c.bulk, ending: c.ending });
         sim.node("rx", Sink { log: log.clone() });
         sim.gate("m", "out").connect(sim.gate("rx", "in"), None);
         let r = Builder::seeded(1).quiet().build(sim.freeze()).run();
@@ -157,8 +166,8 @@ fn run_case(c: &Case) -> Result<u64, String> {
         (l, ok)
     })
     .map_err(|m| format!("panicked: {m}"))?;
-    if !ok {
-        return Err("run returned an error".into());
+    if ok != (c.ending == 0) {
+        return Err(format!("run returned {} (tear-down variant {})", if ok { "Ok" } else { "an error" }, c.ending));
     }
     let all: Vec<Kind> = if c.replace { c.local.clone() } else { c.global.iter().chain(c.local.iter()).copied().collect() };
     let n = all.len();
@@ -246,7 +255,7 @@ impl Property for C14 {
     fn rule(&self, tier: Tier) -> String {
         format!(
             "every global stack of 0..={} elements x every per-module stack of 0..={} elements (Module::stack appending to the global stack element by element or as one multi-element stack, or replacing it) over {{pass, modify id, consume kind 1, consume kind 2, send on event_start, send on event_end}}; \
-             the module sees a start stage, message kind 1 (during which elements and the handler send to a sink), message kind 2, a timer wake-up and tear-down; \
+             the module sees a start stage, message kind 1 (during which elements and the handler send to a sink), message kind 2, a timer wake-up and tear-down (normal, with a joined task that never finished, with at_sim_end returning an error: the tear-down event is bracketed all the same); \
              oracle: expected call log computed directly (event_start in stack order interleaved with incoming until consumed, handler iff not consumed, event_end in reverse order, brackets never interleave, emitted messages reach the sink in program order); \
              non-trivial = stack with at least 2 elements",
             tier.pick(3, 4),
@@ -257,14 +266,14 @@ impl Property for C14 {
         vec!["processing elements that panic, and stacks changed at run time, are outside the alphabet".into()]
     }
     fn required_features(&self, _tier: Tier) -> Vec<&'static str> {
-        vec!["early_element_consumes", "element_sends", "global_and_local_parts", "module_replaces_stack", "empty_stack", "multi_element_stack_appended_to_global"]
+        vec!["early_element_consumes", "element_sends", "global_and_local_parts", "module_replaces_stack", "empty_stack", "multi_element_stack_appended_to_global", "tear_down_ending_in_an_error"]
     }
     fn explore(&self, ctx: &mut Ctx) {
         let gs = stacks(ctx.tier.pick(3, 4));
         let ls = stacks(ctx.tier.pick(2, 3));
         for g in &gs {
             for l in &ls {
-                for (replace, bulk) in [(false, false), (true, false), (false, true)] {
+                for (replace, bulk, ending) in [(false, false, 0u8), (true, false, 0), (false, true, 0), (false, false, 1), (false, false, 2)] {
                     if replace && g.len() > 1 {
                         continue;
                     }
@@ -274,7 +283,10 @@ impl Property for C14 {
                     if !ctx.mine() {
                         continue;
                     }
-                    let c = Case { global: g.clone(), local: l.clone(), replace, bulk };
+                    let c = Case { global: g.clone(), local: l.clone(), replace, bulk, ending };
+                    if ending != 0 {
+                        ctx.hit("tear_down_ending_in_an_error");
+                    }
                     ctx.begin(|| case_json(&c));
                     ctx.out.evaluations += 1;
                     ctx.out.traces += 1;
